@@ -171,7 +171,8 @@ def cube_queries(prefix, kinds, cks, timeout, mem, a=16, **kw):
 def gen_queries(prefix, kinds, cks, timeout, mem=None, a=16):
     """per-generator harnesses (reached through the hook verif_add_legals)"""
     qs = []
-    two = prefix.endswith("gen2")
+    two = prefix.endswith("gen2") or prefix.endswith("gen3")
+    nmask = 3 if prefix.endswith("gen3") else 2
     for k in kinds:
         if two and k == "king":
             continue
@@ -183,9 +184,11 @@ def gen_queries(prefix, kinds, cks, timeout, mem=None, a=16):
             if c == 2 and k != "king":
                 continue  # in double check the dispatcher calls the king generator only (c16_dispatch)
             m = mem or 3  # measured peak RSS <= 0.5 GB
-            qs.append(Query("brd::%s_%s_c%d" % (prefix, k, c), stubbing=True, rules=board_rules(a, full_n=2 if two else None), default_unwind=2, timeout=timeout, mem_gb=m))
+            qs.append(Query("brd::%s_%s_c%d" % (prefix, k, c), stubbing=True, rules=board_rules(a, full_n=nmask if two else None), default_unwind=2, timeout=timeout, mem_gb=m))
     return qs
 
+
+GEN3 = KINDS[:5]  # kinds whose generator loop is also run with three origins in the mask (C16: both tiers; C01: thorough, its quick tier is near the deadline)
 
 GEN_NOTE = ("quick tier decides generate_moves_for compositionally: dispatch layer with the generators stubbed (every board value, mask, abort point) "
             "+ each real generator through the hook on a single-origin mask holding one of its pieces + each generator silent on masks holding none "
@@ -317,6 +320,10 @@ def plan_c01(res, tier, seed, only):
     qs = base + gen_queries("c01_gen", KINDS[:6], [0, 1, 2], cap) + gen_queries("c16_silent", KINDS[:6], [0, 1, 2], cap)
     # two origins of the generator's kind in the mask: the loops' second iteration behaves like the first
     qs += gen_queries("c01_gen2", KINDS[:5], [0, 1], cap)
+    if tier == "thorough":
+        qs += gen_queries("c01_gen3", GEN3, [0, 1], cap)  # three origins: the third iteration as well (quick tier: run under C16)
+    else:
+        res.notrun.append("c01_gen3 (three origins of one kind in the mask): quick tier of C16, thorough tier here")
     if tier == "quick":
         # public entry point (generate_moves_for itself) on three rotating cubes as a cross-check of the composition; all 21 in thorough
         pub = [("king", 0), ("pawn", 0), ("pawn", 1), ("king", 1), ("rook", 0), ("bishop", 1), ("queen", 0), ("knight", 1), ("king", 2)]
@@ -484,7 +491,8 @@ def plan_c09(res, tier, seed, only):
     n = 4 if tier == "quick" else 16
     res.bounds = {"builder states": "all (64 optional pieces, side, rights, ep square, clocks)", "from_board": "accepted boards with <= %d pieces per colour" % n,
                   "parser side": "field parsers on bounded strings only (C08); record-level equality from_fen(text) == build(state) is outside the claim"}
-    res.assumptions = ["validators stubbed by the reference predicates in the sequencing harness (discharged by C06's per-validator harnesses)"]
+    res.assumptions = ["validators stubbed by the reference predicates in the sequencing harness (discharged by C06's per-validator harnesses; the castle, "
+                       "en-passant and clock lemmas are also run here, the board/checkers lemmas only under C06)"]
     oracle_validation(res)
     cap = 900 if tier == "quick" else 3000
     rk = ["1458", "2367"]
@@ -492,6 +500,8 @@ def plan_c09(res, tier, seed, only):
     qs = [Query("c06::c09_build_seq_r%s" % (rq[seed % 4] if tier == "quick" else rk[seed % 2]), stubbing=True, rules=c06_rules(a, n), default_unwind=2, timeout=max(cap, 1500), mem_gb=8),
           Query("c06::c09_from_board_n%d" % n, stubbing=True, rules=c06_rules(a, n), default_unwind=2, timeout=cap, mem_gb=10),
           H("c08", "c08_castle_shredder", timeout=cap, mem_gb=8), H("c08", "c08_ep", timeout=cap, mem_gb=8), H("c08", "c08_side", timeout=cap, mem_gb=8)]
+    # the three cheap validator lemmas the sequencing harness rests on (also part of C06): real validator == reference predicate, every raw board
+    qs += [Query("c06::" + v, stubbing=False, rules=c06_rules(a, 4), default_unwind=2, timeout=cap, mem_gb=8) for v in ("c06_v_castle", "c06_v_ep", "c06_v_clocks")]
     if tier == "thorough":
         if os.environ.get("VERIF_ATTEMPTS") == "1":
             # dense XOR over all keys of a 64-cell builder: no verdict in 50 min (XOR-chain equivalence); attempt only on request.
@@ -537,13 +547,17 @@ def plan_c12(res, tier, seed, only):
     res.functions = ["Board::status", "Board::generate_moves (abort contract, via the per-origin abort harnesses)"]
     res.bounds = {"status glue": "every board value, every answer of generate_moves, clock 0..=100",
                   "has-a-legal-move": "generate_moves(|_| true) returns true iff some batch is delivered: dispatch (c16_dispatch, every board) + "
-                                      "per-origin abort harnesses (every accepted board); batches are exactly the legal moves by C01"}
+                                      "per-origin abort harnesses (every accepted board); batches are exactly the legal moves of their origin: the per-generator C01 harnesses (c01_gen, 14 cubes) are run here too"}
     res.assumptions = list(BOARD_ASSUME)
+    oracle_validation(res)
     cap = 600 if tier == "quick" else 2700
     qs = [Query("glue::c12_status", stubbing=True, timeout=cap, mem_gb=6),
           Query("c16::c16_dispatch", stubbing=True, timeout=cap, mem_gb=8)]
     res.assumptions.append(GEN_NOTE)
     qs += gen_queries("c16_gen_abort", KINDS[:6], [0, 1, 2], cap)
+    # "a batch is delivered for an origin iff that origin has a legal move" is the per-generator C01 statement: run it here as well, so that a
+    # generator emitting an illegal move (status Ongoing in a stalemate) or dropping a legal one is caught by this check and not only by C01
+    qs += gen_queries("c01_gen", KINDS[:6], [0, 1, 2], cap)
     if tier == "thorough":
         qs += cube_queries("c16_abort", KINDS[:6], [0, 1, 2], cap, 5)
         if os.environ.get("VERIF_ATTEMPTS") == "1":
@@ -578,8 +592,9 @@ def plan_c16(res, tier, seed, only):
     res.bounds = {"dispatch": "every board value, every mask, every abort point, generators replaced by arbitrary batch emitters (<= 2 batches each)",
                   "generators": "every accepted board, every single-origin mask: exactly the legal moves of that origin (C01 harness), abort at call 0/1",
                   "batches": "<= 2 per origin and 2 only for a pawn attacking the en-passant square (<= 2 such pawns): at most 16 + 2 = 18 batches",
-                  "not decided": "multi-origin masks inside one generator loop beyond the single-origin case are covered only by the loop structure "
-                                 "(each iteration handles one origin independently); a symbolic-mask harness on <= N pieces is attempted in the thorough tier"}
+                  "multi-origin": "masks holding two and three pieces of one kind (c01_gen2 / c01_gen3): every move of the queried origin exactly once, no batch about a square outside the mask",
+                  "not decided": "a fourth and later iteration of one generator loop behaving like the first three (each iteration reads only the loop variable and "
+                                 "loop-invariant values: stated as an assumption); a symbolic-mask harness on <= N pieces is attempted in the thorough tier"}
     res.assumptions = list(BOARD_ASSUME)
     oracle_validation(res)
     cap = 900 if tier == "quick" else 2700
@@ -587,6 +602,7 @@ def plan_c16(res, tier, seed, only):
     res.assumptions.append(GEN_NOTE)
     qs += gen_queries("c16_gen_abort", KINDS[:6], [0, 1, 2], cap) + gen_queries("c16_silent", KINDS[:6], [0, 1, 2], cap)
     qs += gen_queries("c01_gen", KINDS[:6], [0, 1, 2], cap) + gen_queries("c01_gen2", KINDS[:5], [0, 1], cap)
+    qs += gen_queries("c01_gen3", GEN3, [0, 1], cap)  # three origins of one kind in the mask
     if tier == "quick":
         pub = KINDS[:6]
         qs += cube_queries("c16_abort", [pub[seed % 6], pub[(seed + 3) % 6]], [0, 1], cap, 5)
